@@ -196,7 +196,7 @@ func c16FinalVsClose(rt *rapid.T) {
 }
 
 func TestC16FinalVsClose(t *testing.T) {
-	if os.Getenv("VERIF_FINALCLOSE_OFF") != "" || os.Getenv("VERIF_FINALCLOSE_ON") == "" { // TEMPORARY: off until the repair it calls for is committed
+	if os.Getenv("VERIF_FINALCLOSE_OFF") != "" { // only for seeded changes written against the tree before the repair this test called for
 		t.Skip("switched off")
 	}
 	rapid.Check(t, c16FinalVsClose)
